@@ -21,6 +21,7 @@ From AV Require Import Tree.Index Tree.IndexProofsAssoc Tree.IndexProofs Tree.Re
 From AV Require Import Spec.SpecReal Tree.CheckFn Tree.IndexProofsTablesReal Tree.IndexProofsClosed Tree.IndexProofsTinyMove.
 From AV Require Import Tree.RefsAll Tree.IndexProofsNodeInv Tree.IndexProofsAll Tree.IndexProofsTinyCross.
 From AV Require Import Tree.SortProofsHeap Tree.SortProofsNames Tree.IndexProofsSort Tree.Copy Tree.IndexProofsDup Tree.IndexProofsRemoveOp.
+From AV Require Import Tree.RefsAllB Tree.IndexProofsCopyC Tree.IndexProofsAllB Tree.IndexProofsTinyAllB.
 Import Tiny.
 Open Scope list_scope.
 Open Scope N_scope.
@@ -162,6 +163,48 @@ Theorem C04_history_all_real :
   run_ops RT tab_el tab_en (check_fn_model dfas) LATEST root_attrs l empty_world = Val w' ->
   TreeFacts w' /\ Inv04 RT (check_fn_model dfas) w' /\ Inv05 RT w'.
 Proof. exact C04_C05_history_all_rt. Qed.
+
+(* ---------- the copy clauses, last reduction (class Known05b of Tree/RefsAllB.v).  The pre-order walk of the copy made by
+   create_copied_sub_element lists nobody twice (deep_copy allocates the copy of a sub-element after everything allocated for its
+   elder siblings: disjoint id ranges above the parent), so the duplicate check on the walk is redundant: Known05b = false implies
+   Known05a = false, and the statements for all 26 constructors hold with Known05b.  What the copy clauses of Known05b still decide by
+   running the model: a FAILED copy that allocated nodes; two identifiable elements of the copy with one path (possible when the
+   version filter drops the SHORT-NAME of two named containers with equally named contents); a copy that is not identifiable itself
+   holding an element whose path is already in the destination's index (finding C04-copy-container-duplicates-paths). *)
+Theorem C04_copy_walk_nodup :
+  forall (T : tables) (check_fn : N -> list N -> res bool) (self other : id) (pos m v : N) (w : world) (c : id) (w' : world),
+  TreeFacts w -> Inv04 T check_fn w -> MReach T w m self ->
+  create_copied_sub_element_inner T self other pos m v w = Val (OK c, w') ->
+  forall f, NoDup (walk f w' c).
+Proof. exact copy_walk_nodup. Qed.
+
+Theorem C04_known05b_implies_a :
+  forall (T : tables) (check_fn : N -> list N -> res bool) (tab_el tab_en : nametab) (LATEST : N) (root_attrs : list (N * cdata))
+         (w : world) (o : op) (r : out value) (w' : world),
+  TreeFacts w -> Inv04 T check_fn w ->
+  Known05b T tab_el tab_en check_fn LATEST root_attrs w o = false ->
+  run_op T tab_el tab_en check_fn LATEST root_attrs o w = Val (r, w') ->
+  Known05a T tab_el tab_en check_fn LATEST root_attrs w o = false.
+Proof. exact known05b_a. Qed.
+
+Theorem C04_history_allb :
+  forall (T : tables) (tab_el tab_en : nametab) (check_fn : N -> list N -> res bool) (LATEST : N)
+         (root_attrs : list (N * cdata)),
+  TablesOK T check_fn ->
+  (forall ty, et_new T (autosar_element T) = Val ty -> plainty T ty) ->
+  forall (l : list op) (w' : world),
+  clean45b T tab_el tab_en check_fn LATEST root_attrs l empty_world = true ->
+  run_ops T tab_el tab_en check_fn LATEST root_attrs l empty_world = Val w' ->
+  TreeFacts w' /\ Inv04 T check_fn w' /\ Inv05 T w'.
+Proof. exact C04_C05_history_allb. Qed.
+
+Theorem C04_history_allb_real :
+  forall (dfas : N -> option (list (list N) * list N)) (tab_el tab_en : nametab) (LATEST : N) (root_attrs : list (N * cdata))
+         (l : list op) (w' : world),
+  clean45b RT tab_el tab_en (check_fn_model dfas) LATEST root_attrs l empty_world = true ->
+  run_ops RT tab_el tab_en (check_fn_model dfas) LATEST root_attrs l empty_world = Val w' ->
+  TreeFacts w' /\ Inv04 RT (check_fn_model dfas) w' /\ Inv05 RT w'.
+Proof. exact C04_C05_history_allb_rt. Qed.
 
 (* ---------- sort and duplicate (op2).
    Sort: agent-c14's relation `kept` (Tree/SortProofsNames.v: maps, parents, names, types untouched; content lists unchanged or - for
@@ -343,4 +386,9 @@ Example C04_duplicate_demo :
     idents_of w' 0 = [(BS "/A", 2); (BS "/A/S", 5); (BS "/B", 8)] /\
     idents_of w' 1 = [(BS "/A", 12); (BS "/A/S", 15); (BS "/B", 18)] /\ origins_list w' 1 = [(BS "/B", [17])].
 Proof. exact dup_demo_summary. Qed.
+
+Example C04_copy_demo_b :
+  script_okb copy_demo = true /\
+  Known05b tiny tiny_el tiny_en tiny_check_fn LATEST [] (wof cc_pre) cc_op = true.
+Proof. exact copy_demo_b. Qed.
 
